@@ -144,9 +144,11 @@ package container
 //@ property C04 C01 C03 C02
 //@ requires [inv] RegInv(self)
 //@ requires [early-factory] method != nil && method.Role == RoleEarlyRef() && method.ForName == name && method.Reg == self
-//@ requires [not-answered-yet] !self.L1Dom[name] && !self.L2Dom[name]
+// (an early reference that was already handed out stays what lookups return: registering a factory again does not touch it)
+//@ requires [not-published] !self.L1Dom[name]
 //@ requires [early-factory-for-marked] self.IC[name]
 //@ assigns self.L3Dom, self.L3, self.HasHole
+//@ ensures [early-reference-kept] self.L2Dom == old(self.L2Dom) && self.L2 == old(self.L2)
 //@ ensures [inv-kept] RegInv(self)
 //@ ensures [rely] RegRely(self)
 //@ ensures [adds-whole-view] self.L3Dom == store(old(self.L3Dom), name, true) && self.L3 == store(old(self.L3), name, method)
